@@ -743,6 +743,18 @@ macro_rules! rdata_types {
                             left.eq(right)
                         }
                     )* )* )*
+                    (
+                        &AllRecordData::Opt(ref left),
+                        &AllRecordData::Opt(ref right)
+                    ) => {
+                        left.eq(right)
+                    }
+                    (
+                        &AllRecordData::Unknown(ref left),
+                        &AllRecordData::Unknown(ref right)
+                    ) => {
+                        left.eq(right)
+                    }
                     (_, _) => false
                 }
             }
